@@ -207,6 +207,10 @@ func genCase(t *rapid.T) ax.Case {
 	if c.Affine() {
 		c.GapOpen = rapid.IntRange(-6, 0).Draw(t, "open")
 	}
+	if len(c.R) <= 40 && len(c.Q) <= 40 && rapid.IntRange(0, 14).Draw(t, "large-scores") == 9 {
+		c.Mat.Scale = rapid.SampledFrom([]int{1 << 20, 1 << 28, 1 << 30, 1<<31 - 1}).Draw(t, "scale")
+		c.GapOpen *= c.Mat.Scale
+	}
 	ax.GenUsage(t, &c, pool, func(t *rapid.T) ax.MatSpec { return genMat(t) })
 	return c
 }
